@@ -495,6 +495,22 @@ func (r *runner) resume() string {
 	return ""
 }
 
+func burstLicense(gi int) string {
+	if gi == 0 {
+		return overrideLicense
+	}
+	return fmt.Sprintf("%s-of-goroutine-%d", overrideLicense, gi)
+}
+
+// recordLic records a send made with the per-send license lic.
+func (r *runner) recordLic(p pack.Pack, lic string, g int) int {
+	payload := append([]byte(nil), pack.ToBytesPack(p)...)
+	f := ref.Frame(10, 0, p.GetPCODE(), ref.Hash64([]byte(lic)), payload)
+	r.all = append(r.all, sent{id: p.GetTime(), frame: f, g: g})
+	r.byFrame[string(f)] = len(r.all) - 1
+	return len(r.all) - 1
+}
+
 func (r *runner) record(p pack.Pack, override bool, g int) int {
 	lic := r.license
 	if lic == "" {
@@ -628,7 +644,12 @@ func run(c Case) *pbt.Result {
 				for k := 0; k < m; k++ {
 					r.nextID++
 					p := mkPack(r.nextID, a.Size, a.Seed+uint64(gi*131+k))
-					jobs[gi] = append(jobs[gi], job{p, r.record(p, a.Override, gi+1+ai*100)})
+					if a.Override {
+						// every goroutine sends with a per-send license of its own (seed C06-s20)
+						jobs[gi] = append(jobs[gi], job{p, r.recordLic(p, burstLicense(gi), gi+1+ai*100)})
+					} else {
+						jobs[gi] = append(jobs[gi], job{p, r.record(p, a.Override, gi+1+ai*100)})
+					}
 				}
 			}
 			errs := make([]error, g)
@@ -638,7 +659,13 @@ func run(c Case) *pbt.Result {
 				go func(gi int) {
 					defer wg.Done()
 					for _, j := range jobs[gi] {
-						if e := doSend(cl, j.p, a.Override); e != nil && errs[gi] == nil {
+						var e error
+						if a.Override {
+							e = cl.Send(j.p, wnet.WithLicense(burstLicense(gi)))
+						} else {
+							e = doSend(cl, j.p, false)
+						}
+						if e != nil && errs[gi] == nil {
 							errs[gi] = e
 						}
 					}
@@ -852,7 +879,7 @@ func drawActions(t *rapid.T, big bool) []Action {
 
 var specDirect = pbt.Register(pbt.Spec[Case]{
 	Prop: "C06", Name: "direct-mode-histories",
-	Rule:  "histories on a fresh one-way client in direct mode against a harness-owned loopback peer: send (packs of 6 types, 30 B..2.5 MB so that frames exceed the 2 MiB write buffer in the thorough tier, with/without per-send license; one small send in four re-sends the pack object of the previous send with another project code and object id and the same time), burst (2-8 goroutines x 1-6 concurrent sends), peer faults: cut after n bytes of the next frame (mid-header, mid-payload), cut between frames, reset, listener down (k failed connects) / up; collector pauses reading or reads slowly (16 KiB per 2 ms) / resumes, the owner closes the connection (Close, or ApplyConfig with another license when the peer listens on port 6600) with or without accepted frames still unread; in a quarter of the histories the write timeout is 250-400 ms and 1-2 quiet periods longer than it are inserted (the connection stays healthy however old it is); oracle = every connection's stream is a concatenation of whole frames (a partial tail only where the peer cut), every frame equals the reference frame of exactly one send (pack's project code, hash of the license in force, exact length), none twice, per-sender order kept, every send that returned nil on a healthy connection is received, the first send after a reset whose RST has been delivered reports an error (the loss is detectable), from the first reported error on the client recovers within three sends once the listener is up and the first nil send arrives on a new connection; non-trivial = a frame delivered after a fault, or a concurrent burst; distinct by case",
+	Rule:  "histories on a fresh one-way client in direct mode against a harness-owned loopback peer: send (packs of 6 types, 30 B..2.5 MB so that frames exceed the 2 MiB write buffer in the thorough tier, with/without per-send license; one small send in four re-sends the pack object of the previous send with another project code and object id and the same time), burst (2-8 goroutines x 1-6 concurrent sends; with per-send licenses every goroutine uses a license of its own), peer faults: cut after n bytes of the next frame (mid-header, mid-payload), cut between frames, reset, listener down (k failed connects) / up; collector pauses reading or reads slowly (16 KiB per 2 ms) / resumes, the owner closes the connection (Close, or ApplyConfig with another license when the peer listens on port 6600) with or without accepted frames still unread; in a quarter of the histories the write timeout is 250-400 ms and 1-2 quiet periods longer than it are inserted (the connection stays healthy however old it is); oracle = every connection's stream is a concatenation of whole frames (a partial tail only where the peer cut), every frame equals the reference frame of exactly one send (pack's project code, hash of the license in force, exact length), none twice, per-sender order kept, every send that returned nil on a healthy connection is received, the first send after a reset whose RST has been delivered reports an error (the loss is detectable), from the first reported error on the client recovers within three sends once the listener is up and the first nil send arrives on a new connection; non-trivial = a frame delivered after a fault, or a concurrent burst; distinct by case",
 	Quick: 60, Thorough: 2000,
 	Draw: func(t *rapid.T) Case {
 		c := Case{Actions: drawActions(t, pbt.Thorough())}
